@@ -17,7 +17,8 @@ tie:     x_emit (syntactic classification of every set / random id / directory l
          process stream: several generations inside ONE Python process (lib/c16_inproc.py, entry point generator.__main__.main)
          — model A, then model B = A with every referenced enumeration's supportsCustomValues flipped and the first property
          of every extends/mixins base structure made optional/required (same names, different answers to every by-name
-         lookup), then A again; B then A; and all plugins interleaved in one process — each output tree compared with the
+         lookup), then A again; B then A; the extended model list E (more definitions), then A, then E; and all plugins interleaved
+         in one process — each output tree compared with the
          tree a fresh process writes for the same model.
 partial: that each Python expression is an instance of its abstract class is not proved.
 """
@@ -39,7 +40,7 @@ RULE = ("history stream: per plugin and model list — python/rust/dotnet on the
         "list in the same directory, run after hand-placed stale files matching the owned pattern}; the whole output tree (path -> sha256) "
         "must equal the reference tree of that (plugin, model list); distinct = distinct (plugin, model list, seed, history). "
         "process stream: per plugin (python/rust/dotnet on lsp.json, testdata on the small model; thorough: testdata on lsp.json too) the "
-        "generation sequences [A, B, A] and [B, A] inside one Python process, and one process running all plugins interleaved "
+        "generation sequences [A, B, A], [B, A] and [E, A, E] (E = the extended model list, which has more definitions) inside one Python process, and one process running all plugins interleaved "
         "[p1 A, p2 A, p3 A, p1 B, p2 B, p3 B, p1 A]; B = A with the supportsCustomValues flag of every referenced enumeration flipped and the "
         "optional flag of the first property of every extends/mixins base flipped (nothing renamed); every step's output tree must equal the "
         "tree written by a fresh process for the same (plugin, model), and fresh A and fresh B must differ (non-vacuity); "
@@ -187,6 +188,8 @@ def process_sequences(tier):
         b = VARIANT[a]
         seqs.append(("%s:A,B,A" % p, "1", [(p, a), (p, b), (p, a)]))
         seqs.append(("%s:B,A" % p, "2", [(p, b), (p, a)]))
+        # a model with MORE definitions first: nothing of it may survive into the next generation
+        seqs.append(("%s:E,A,E" % p, "1", [(p, OTHER[a]), (p, a), (p, OTHER[a])]))
     three = ("python", "rust", "dotnet")
     seqs.append(("interleaved", "3", [(p, "committed") for p in three] + [(p, "variant") for p in three] + [("python", "committed")]))
     if tier == "thorough":
